@@ -19,10 +19,10 @@ def cxWorld : World :=
   { sess := fun s => if s = 1 then { prog := sendProg cxA true } else if s = 2 then { prog := sendProg cxB true } else {} }
 
 /-- A: BEGIN, GetBalances (inserts the zero row) · B: BEGIN, GetBalances (waits for A's in-progress row) ·
-    A: UpdateVolumes, InsertTransaction, InsertLog, COMMIT · B: GetBalances resumes — `ins` skips, the
+    A: UpdateVolumes, InsertTransaction, UpsertAccounts, InsertLog, COMMIT · B: GetBalances resumes — `ins` skips, the
     `SELECT … FOR UPDATE` shares the statement's first snapshot, sees no row, locks nothing, reads 0 — then
-    UpdateVolumes, InsertTransaction, InsertLog, COMMIT -/
-def cxSchedule : Schedule := [1, 1, 2, 2, 1, 1, 1, 1, 2, 2, 2, 2, 2]
+    UpdateVolumes, InsertTransaction, UpsertAccounts, InsertLog, COMMIT -/
+def cxSchedule : Schedule := [1, 1, 2, 2, 1, 1, 1, 1, 1, 2, 2, 2, 2, 2, 2]
 
 end Ledger.C06
 
@@ -43,9 +43,9 @@ def cxWorld : World :=
       if s = 1 then { prog := sendProg cxA true } else if s = 2 then { prog := sendProg cxB true }
       else if s = 3 ∨ s = 4 then { prog := blocksProg 1 100 } else {} }
 
-/-- A: BEGIN, UpdateVolumes, InsertTransaction, InsertLog (log id 1, uncommitted) · B: whole request (log id 2), COMMIT ·
+/-- A: BEGIN, UpdateVolumes, InsertTransaction, UpsertAccounts, InsertLog (log id 1, uncommitted) · B: whole request (log id 2), COMMIT ·
     block builder: `create_blocks` → block (0, 2] hashed over log 2 only · A: COMMIT · block builder again (quiescence) -/
-def cxSchedule : Schedule := [1, 1, 1, 1, 2, 2, 2, 2, 2, 3, 1, 4]
+def cxSchedule : Schedule := [1, 1, 1, 1, 1, 2, 2, 2, 2, 2, 2, 3, 1, 4]
 
 end Ledger.C34
 
@@ -99,8 +99,8 @@ def cxWorld (recheck : Bool) : World :=
     sess := fun s => if s = 1 ∨ s = 2 then { prog := cxProg recheck } else {} }
 
 /-- A: BEGIN, key lookup (miss) · B: BEGIN, key lookup (miss) · A: GetBalances (locks, reads 10),
-    UpdateVolumes, InsertTransaction, InsertLog, COMMIT · B: GetBalances (reads 0) → refused → ROLLBACK [→ lookup] -/
-def cxSchedule : Schedule := [1, 1, 2, 2, 1, 1, 1, 1, 1, 2, 2, 2]
+    UpdateVolumes, InsertTransaction, UpsertAccounts, InsertLog, COMMIT · B: GetBalances (reads 0) → refused → ROLLBACK [→ lookup] -/
+def cxSchedule : Schedule := [1, 1, 2, 2, 1, 1, 1, 1, 1, 1, 2, 2, 2]
 
 end Ledger.C13s
 
@@ -134,10 +134,10 @@ def cxWorld (sync : Bool) : World :=
   { sess := fun s => if s = 1 then { prog := sendProg (cxA sync) true } else if s = 2 then { prog := sendProg (cxB sync) true } else {} }
 
 /-- A: BEGIN, UpdateVolumes, InsertTransaction (id 1) · B: the whole request (id 2), COMMIT · A: the rest -/
-def cxTxSchedule : Schedule := [1, 1, 1, 2, 2, 2, 2, 2, 2, 1, 1, 1]
+def cxTxSchedule : Schedule := [1, 1, 1, 2, 2, 2, 2, 2, 2, 2, 1, 1, 1, 1]
 
-/-- A: BEGIN, UpdateVolumes, InsertTransaction, InsertLog (log id 1) · B: the whole request (log id 2), COMMIT · A: COMMIT -/
-def cxLogSchedule : Schedule := [1, 1, 1, 1, 2, 2, 2, 2, 2, 1]
+/-- A: BEGIN, UpdateVolumes, InsertTransaction, UpsertAccounts, InsertLog (log id 1) · B: the whole request (log id 2), COMMIT · A: COMMIT -/
+def cxLogSchedule : Schedule := [1, 1, 1, 1, 1, 2, 2, 2, 2, 2, 2, 1]
 
 end Ledger.C16s
 
